@@ -207,6 +207,14 @@ def r4(run):
         if h is not None:
             for o in q.origins(h):
                 labels += c10.classify_hash_origin(run, o)
+        else:
+            # `let mut out = build(); out.hash = Some(hash);` - the hash assigned to the built frame afterwards
+            b.defs()
+            for (bi2, si2, lhs2, rv2, sp2) in b.field_writes:
+                last = lhs2["p"][-1] if lhs2["p"] else None
+                if isinstance(last, dict) and last.get("n") == "hash" and last.get("adt") == C.FRAME and bi2 in b.live_blocks() and q.reaches(b, c.bb, bi2):
+                    for o in q.origins(b.rvalue_expr(rv2)):
+                        labels += c10.classify_hash_origin(run, o)
         run.ob(PF + "|return-frame|hash", bool(labels) and all("commit:" in l for l in labels), c.sp, "hash is the CAS commit of the rendered return value: %s" % sorted(set(labels)),
                reason="hash-without-content")
     # emitted after the drained frames: chain(drain, additional_frame)
